@@ -27,7 +27,7 @@ def consts(limit, depths, pickles):
 def tla(c):
     return dict(Limit=str(c['Limit']), MaxPickles=str(c['MaxPickles']),
                 Depths='{' + ', '.join(map(str, c['Depths'])) + '}',
-                Kinds='{"exc0", "exc1", "base", "nested"}')
+                Kinds='{"exc0", "exc1", "base", "nested", "encerr"}')
 
 
 def main(ctx):
